@@ -5,3 +5,6 @@ import CaddyModel.C05.Driver
 import CaddyModel.C05.Props
 import CaddyModel.C18.Driver
 import CaddyModel.C18.Props
+import CaddyModel.C19.Driver
+import CaddyModel.C19.Props
+import CaddyModel.C19.Witness
